@@ -5,6 +5,11 @@ CHECKS = {
         text="Per-module contracts on the real BankMachine constructor output are discharged by induction over all inputs and schedules (unbounded time) for each listed configuration.",
         note="Per configuration (enumerated list in evidence). Trusted: z3, Migen elaboration passes, FHDL->z3 translator (cross-checked against the Migen simulator each run).",
     ),
+    "C15": dict(
+        engine="HWVC", category="proof", technique="contract-based deductive verification: combinational validity of SECDED/granularity postconditions on the real elaborated ECC write/read paths for all data and all symbolic flip positions; induction for counters/flags (z3)",
+        text="Round trip, every single flip and every double flip (symbolic one-/two-hot masks over all code bits, every lane, other lanes arbitrary), byte-enable widening and the granularity flag are postconditions of the real LiteDRAMNativePortECCW/ECCR proved for all inputs; counters, sticky flags and pipeline of LiteDRAMNativePortECC proved by induction against reference instances of those modules.",
+        note="Lane widths 8/16/32/64 x 8 lanes enumerated. CSR software writes are free inputs; CSR shims in the harness process. rdata words presented one cycle each.",
+    ),
 }
 _todo = "check not built yet in this round (design in DESIGN.md §3); will be claimed when its contracts are committed"
 NOT_APPLICABLE = {("C%02d" % i): _todo for i in range(1, 21)}
